@@ -59,6 +59,11 @@ Grp(H, d) == IF d = 0 THEN TRUE ELSE H.grp[d]
 Mn(H, d)  == IF d = 0 THEN 1 ELSE H.mn[d]
 Mx(H, d)  == IF d = 0 THEN 1 ELSE H.mx[d]
 Tgt(H, d) == d # 0 /\ d = H.tgt
+\* The target filter (FINAL_OUTPUT's xpath on flat formats / EDI): H.flt = TRUE keeps only the instances of a *leaf*
+\* target whose first unit has an odd index (`.[u mod 2 = 1]`).  A filtered-out instance is removed from the tree and
+\* not delivered, but it has occurred: it counts towards min and max like any other.
+Flt(H) == "flt" \in DOMAIN H /\ H.flt /\ ~H.grp[H.tgt]
+Passes(H, u) == ~Flt(H) \/ u % 2 = 1
 
 -----------------------------------------------------------------------------
 (* Impl *)
@@ -95,6 +100,7 @@ RecDone(H, s0) ==
       s2 == IF Tgt(H, cur.d)
               THEN IF s1.target # 0 THEN [s1 EXCEPT !.panic = "r.target != nil"]
                    ELSE IF cur.node = 0 THEN [s1 EXCEPT !.panic = "cur.recNode == nil"]
+                   ELSE IF ~Passes(H, s1.nodes[cur.node].u) THEN [s1 EXCEPT !.gone = @ \cup {cur.node}]     \* filtered out: removed, not delivered
                    ELSE [s1 EXCEPT !.target = cur.node]
               ELSE s1
   IN IF cur.occ < Mx(H, cur.d) THEN s2
@@ -175,7 +181,7 @@ RefInst(H, in, d, pos, depth) ==
       toks == <<self>> \o r.toks
   IN IF ~r.ok THEN [r EXCEPT !.toks = toks]
      ELSE [ok |-> TRUE, pos |-> r.pos, toks |-> toks,
-           outs |-> IF d = H.tgt THEN Append(r.outs, Norm(toks)) ELSE r.outs, errd |-> 0]
+           outs |-> IF d = H.tgt /\ Passes(H, pos) THEN Append(r.outs, Norm(toks)) ELSE r.outs, errd |-> 0]
 
 \* up to mx instances of d, greedily; fewer than mn is the failure
 RefRepeat(H, in, d, pos, depth, count) ==
